@@ -153,6 +153,7 @@ type record struct {
 	Accepted bool   `json:"accepted"`
 	Best     bool   `json:"best"`
 	Orphan   bool   `json:"orphan"`
+	Blocked  bool   `json:"blocked"`
 	Err      string `json:"err"`
 	PoolLeft int    `json:"poolleft"`
 }
@@ -350,6 +351,7 @@ func runCase(idx int, d caseDoc) record {
 	}
 	orphan, err, blocked := w.Process(node.CopyBlock(blk, nil), 120*time.Second)
 	rec.Orphan = orphan
+	rec.Blocked = blocked
 	if blocked {
 		rec.Err = "ProcessBlock did not return within 120s"
 	} else if err != nil {
